@@ -100,7 +100,7 @@ func harnessC08Hooks() {
 	ctx := context.WithValue(base, key, val)
 
 	n := vInt(0, N)
-	cancelAt := vInt(-3, n-1)   // -3 a before hook cancels, -2 never, -1 before the call, k>=0: handler k (or its filter) cancels
+	cancelAt := vInt(-3, n-1) // -3 a before hook cancels, -2 never, -1 before the call, k>=0: handler k (or its filter) cancels
 	hookCancels := cancelAt == -3 && ((hookB && !plainViaSetters) || hookBC) && !dupBC
 	if cancelAt == -3 && !hookCancels {
 		cancelAt = -2
@@ -109,7 +109,7 @@ func harnessC08Hooks() {
 		cancelFromHook = cancel
 	}
 	byFilter := cancelAt >= 0 && vBool() // the filter of handler cancelAt cancels the context and accepts the event
-	panicAfterCancel := vBool() // the cancelling handler also panics afterwards
+	panicAfterCancel := vBool()          // the cancelling handler also panics afterwards
 	async := make([]bool, n)
 	ctxAware := make([]bool, n)
 	ctxOK := true
